@@ -555,7 +555,10 @@ func (w *c12World) judgeTemporalRoots(op *c12Op) {
 		s.Probe("temporal-roots.either")
 		return // a mutated answer the statement does not force the client to refuse: the union is not judged
 	}
-	want := map[string]bool{string(w.pki.root.DER): true, string(w.subs[0].leaf.DER): true}
+	want := map[string]bool{}
+	for _, d := range append(append([][]byte{}, w.rootsA...), w.rootsB...) {
+		want[string(d)] = true
+	}
 	got := map[string]bool{}
 	for _, r := range op.Roots {
 		if got[string(r.Data)] {
